@@ -12,7 +12,38 @@ Require Import Htp.Proof.PPairC1 Htp.Proof.PPairC2 Htp.Proof.PPairC3 Htp.Proof.P
 
 (* an exchange the response side can work on: PPairA.pp_ex_ok, and the request carries no Expect field (htp_connp_RES_BODY_DETERMINE
    looks for it when the status is 4xx) *)
-Definition qp_ok (g : cfg) (e : pp_ex) : Prop := pp_ex_ok g e /\ rs_hdr_get_c (t_request_headers (px_tend e)) rs_str_expect = None.
+(* (PPairA.pp_ex_ok without the progress of the request: the response may be parsed while the request is in htp_connp_REQ_FINALIZE) *)
+Definition qp_ex_ok (g : cfg) (e : pp_ex) : Prop :=
+  t_is_protocol_0_9 (px_t0 e) = false /\
+  sr_response_ok (px_res e) = true /\ sr_cuts_ok (px_res e) (px_cuts e) = true /\
+  sr_frame_ok (sr_tend (px_t0 e) (px_res e) (px_cuts e)) (length (px_body e)) = true /\ sr_fits g (px_res e) (px_cuts e) = true.
+Lemma qp_ex_ok_of g e : pp_ex_ok g e -> qp_ex_ok g e.
+Proof. intros (A & _ & B). split; [exact A|exact B]. Qed.
+Definition qp_ok (g : cfg) (e : pp_ex) : Prop := qp_ex_ok g e /\ rs_hdr_get_c (t_request_headers (px_tend e)) rs_str_expect = None.
+Lemma qp_ex_parts g e : qp_ex_ok g e ->
+  sr_status_ok (px_ps e) (px_st e) (px_rp e) = true /\ forallb sg_fl_ok (px_ls e) = true /\ sg_needs_pending (px_ls e) = false /\
+  t_is_protocol_0_9 (px_t0 e) = false /\
+  sr_frame_ok (px_tend e) (length (px_body e)) = true /\ (length (px_line0 e) + 2 <= g_field_limit_hard g)%nat /\
+  sr_ffit (g_field_limit_hard g) (sr_p11 (sr_th0 (px_t0 e) (px_line0 e))) None (px_ls e) = true.
+Proof.
+  intros (H09 & Wr & Wc & Hfr & Hfit). destruct e as [t0 rs cuts body]. unfold px_ps, px_st, px_rp, px_line0, px_ls, px_tend. cbn [px_t0 px_res px_cuts px_body] in *.
+  unfold sr_response_ok in Wr. apply andb_prop in Wr. destruct Wr as [Wl Wf].
+  unfold sr_cuts_ok in Wc. apply andb_prop in Wc. destruct Wc as [_ Wc].
+  destruct (sg_block_flat_ok (combine (wp_fields rs) cuts) (sr_forallb_combine_fst wr_field_ok _ cuts Wf) Wc) as [Okl Hnp].
+  unfold sr_fits in Hfit. apply andb_prop in Hfit. destruct Hfit as [Hl0 Hfit]. apply Nat.leb_le in Hl0.
+  rewrite <- (sr_p11_th0 t0 (sr_line0 rs)) in Hfit.
+  repeat split; assumption.
+Qed.
+Lemma qx_tpre_facts g e : qp_ex_ok g e ->
+  t_res_cep (px_tpre e) = c_HTP_COMPRESSION_NONE /\ (t_response_transfer_coding (px_tpre e) =? c_HTP_CODING_NO_BODY)%Z = false /\
+  (t_response_progress (px_tpre e) =? c_HTP_RESPONSE_COMPLETE)%Z = false /\
+  sr_tcomplete (px_tpre e) = pp_tfin e.
+Proof.
+  intros Hok. destruct (qp_ex_parts g e Hok) as (_ & _ & _ & _ & Hfr & _).
+  apply (qp_Tpre_facts (px_ps e) (px_st e) (px_rp e) (px_ls e) (px_body e) (px_t0 e) Hfr).
+Qed.
+Lemma qx_line0_shape g e : qp_ex_ok g e -> sr_plain (px_line0 e) = true /\ exists l, px_line0 e = 72%N :: 84%N :: 84%N :: 80%N :: l.
+Proof. intros Hok. destruct (qp_ex_parts g e Hok) as (Wl & _). apply (sr_status_line_shape _ _ _ Wl). Qed.
 
 Section PairRun.
 Variable cb : cb_oracle.
@@ -23,7 +54,7 @@ Variable all : list pp_ex.
 Hypothesis Hok : Forall (qp_ok g) all.
 Variable junk : list (option tx).
 Variable inn : pj_in.
-Hypothesis Hfree : forall j, (j < length all)%nat -> pj_intx inn <> Some j.
+Hypothesis Hfree : (pj_instat inn =? c_HTP_STREAM_DATA_OTHER)%Z = false.
 
 Definition qp_wires (es : list pp_ex) : bytes := concat (map pp_wire es).
 Definition qp_slots (es : list pp_ex) : list (option tx) := map (fun e => Some (pp_tfin e)) es.
@@ -57,13 +88,13 @@ Definition qp_rgoal (c : connp) (fuel : nat) (rw' : bytes) : Prop :=
 
 Lemma qp_all_in0 esd e es' : all = esd ++ e :: es' -> qp_ok g e.
 Proof. intros E. rewrite Forall_forall in Hok. apply Hok. rewrite E. apply in_or_app. right. left. reflexivity. Qed.
-Lemma qp_all_in esd e es' : all = esd ++ e :: es' -> pp_ex_ok g e.
+Lemma qp_all_in esd e es' : all = esd ++ e :: es' -> qp_ex_ok g e.
 Proof. intros E. apply (qp_all_in0 esd e es' E). Qed.
-Lemma qp_all_in2 esd e e' es'' : all = esd ++ e :: e' :: es'' -> pp_ex_ok g e'.
+Lemma qp_all_in2 esd e e' es'' : all = esd ++ e :: e' :: es'' -> qp_ex_ok g e'.
 Proof. intros E. assert (X : qp_ok g e'); [|apply X]. rewrite Forall_forall in Hok. apply Hok. rewrite E. apply in_or_app. right. right. left. reflexivity. Qed.
 (* the request side is not working on a transaction whose request is complete *)
 Lemma qp_free_at esd e es' : all = esd ++ e :: es' -> pj_free (qp_w esd es').
-Proof. intros E. unfold pj_free. cbn [jw_in qp_w]. rewrite qp_w_k. apply Hfree. rewrite E, app_length. cbn [length]. lia. Qed.
+Proof. intros _. exact Hfree. Qed.
 
 Lemma qp_rgoal_step c c' fuel (rw' : bytes) : sr_iter cb g c = inr c' -> qp_rgoal c' fuel rw' -> qp_rgoal c (S fuel) rw'.
 Proof. intros E (cF & rc & El & X). exists cF, rc. split; [rewrite (sr_loop_inr cb g _ _ _ E); exact El|exact X]. Qed.
@@ -97,12 +128,12 @@ Lemma qp_run_fin esd e es' c d rd p (rw' : bytes) fuel :
   end -> qp_f1 d rw' -> (8 * (length d - rd) + 13 <= fuel)%nat -> qp_rgoal c fuel rw'.
 Proof.
   intros IH Eall H Hc Htop Hw Hf1 Hf. pose proof (ji_rd _ _ _ _ _ _ _ _ _ H) as Hrd.
-  destruct (px_tpre_facts g e (qp_all_in esd e es' Eall)) as (Fc & Fd & Fp & Fr & Et).
+  destruct (qx_tpre_facts g e (qp_all_in esd e es' Eall)) as (Fc & Fd & Fp & Et).
   assert (Eall' : all = (esd ++ [e]) ++ es') by (rewrite <- app_assoc; exact Eall).
   (* the chunk ends with the response *)
   assert (Hend : rd = length d -> p = [] -> rw' = qp_wires es' -> qp_rgoal c fuel rw').
   { intros Erd Ep Erw. rewrite Erd, Ep in H.
-    destruct (pj_finalize_end cb g Hcb Had _ c d _ H Fc Fd Fp Fr) as (c1 & E1 & Dn). rewrite Et in Dn.
+    destruct (pj_finalize_end cb g Hcb Had _ c d _ H Fc Fd Fp) as (c1 & E1 & Dn). rewrite Et in Dn.
     destruct fuel as [|[|f]]; [lia|lia|].
     apply (qp_rgoal_step c c1 _ rw' E1).
     apply (qp_rgoal_exit c1 _ f rw' (esd ++ [e]) es' (pj_idle_end cb g _ c1 d [] _ Dn) Eall').
@@ -112,8 +143,8 @@ Proof.
     apply Hend; [pose proof (sg_skipn_nil _ _ Hs); lia|exact Ep|rewrite Erw; reflexivity].
   - destruct Hw as (q & Hpq & Hq & Hw & Hp0).
     pose proof (qp_all_in2 esd e e' es'' Eall) as Ok'.
-    destruct (pp_ex_parts g e' Ok') as (_ & _ & _ & _ & _ & _ & Hl0' & _).
-    destruct (px_line0_shape g e' Ok') as (Pl & l & Esh).
+    destruct (qp_ex_parts g e' Ok') as (_ & _ & _ & _ & _ & Hl0' & _).
+    destruct (qx_line0_shape g e' Ok') as (Pl & l & Esh).
     assert (Eb : px_line0 e' ++ [CR; LF] = (px_line0 e' ++ [CR]) ++ [LF]) by (rewrite <- app_assoc; reflexivity).
     assert (Hnolf : sg_no_lf (px_line0 e' ++ [CR]) = true).
     { unfold sg_no_lf. rewrite forallb_app. fold (sg_no_lf (px_line0 e')). rewrite (sr_plain_no_lf _ Pl). reflexivity. }
@@ -143,7 +174,7 @@ Proof.
         { rewrite app_assoc, Ep1, <- app_assoc, Esh. reflexivity. }
         assert (Lim : (length (p ++ q1 ++ [LF]) <= g_field_limit_hard g)%nat).
         { rewrite app_assoc, Ep1, <- app_assoc, app_length. cbn [length app]. lia. }
-        destruct (pj_finalize_next cb g Hcb Had c d rd p _ q1 d2 _ H Hc Htop Ed' Nq1 Esh' Lim Fc Fd Fp Fr) as (c1 & E1 & Dn). rewrite Et in Dn.
+        destruct (pj_finalize_next cb g Hcb Had c d rd p _ q1 d2 _ H Hc Htop Ed' Nq1 Esh' Lim Fc Fd Fp) as (c1 & E1 & Dn). rewrite Et in Dn.
         destruct fuel as [|f]; [lia|].
         apply (qp_rgoal_step c c1 f rw' E1).
         assert (Hfr' : pj_free (pj_wnext (qp_w esd (e' :: es'')) (Some (pp_tfin e)) (qp_pend es'' ++ junk))) by (rewrite qp_w_next; apply (qp_free_at (esd ++ [e]) e' es'' Eall')).
@@ -161,8 +192,8 @@ Lemma qp_run_idle_e e es' : qp_Pnext es' -> qp_Pidle e es'.
 Proof.
   intros IH esd c d rd p q rw' fuel prev Eall Hi Hlt Hpq Hq Hw Hf1 Hf.
   pose proof (qp_all_in esd e es' Eall) as Oke.
-  destruct (pp_ex_parts g e Oke) as (Wl & Okl & Hnp & H09 & Hreq & Hfr & Hl0 & Hfit).
-  apply (qp_run_idle cb g Hcb (w := qp_w esd es') (px_ps e) (px_st e) (px_rp e) (px_ls e) (px_body e) (px_t0 e) (qp_wires es') Wl Okl Hnp H09 Hreq Hfr (proj2 (qp_all_in0 esd e es' Eall)) Hl0 Hfit
+  destruct (qp_ex_parts g e Oke) as (Wl & Okl & Hnp & H09 & Hfr & Hl0 & Hfit).
+  apply (qp_run_idle cb g Hcb (w := qp_w esd es') (px_ps e) (px_st e) (px_rp e) (px_ls e) (px_body e) (px_t0 e) (qp_wires es') Wl Okl Hnp H09 Hfr (proj2 (qp_all_in0 esd e es' Eall)) Hl0 Hfit
            qp_f1 (fun d0 rw0 X => X esd e es' Eall) qp_rgoal) with (d := d) (rd := rd) (p := p) (q := q) (prev := prev); try assumption.
   - apply qp_rgoal_step.
   - intros a aF f0 rw0 E B _. apply (qp_rgoal_exit a aF f0 rw0 esd (e :: es') E Eall). apply (JB_in _ _ _ _ e es' eq_refl B).
@@ -199,8 +230,8 @@ Proof.
       * unfold rs_res_fuel. lia.
   - (* inside a response *)
     subst es. pose proof (qp_all_in esd e es' Eall) as Oke.
-    destruct (pp_ex_parts g e Oke) as (Wl & Okl & Hnp & H09 & Hreq & Hfr & Hl0 & Hfit).
-    destruct (qp_step cb g Hcb (w := qp_w esd es') (px_ps e) (px_st e) (px_rp e) (px_ls e) (px_body e) (px_t0 e) (qp_wires es') Wl Okl Hnp Hreq Hfr (proj2 (qp_all_in0 esd e es' Eall)) Hl0 Hfit
+    destruct (qp_ex_parts g e Oke) as (Wl & Okl & Hnp & H09 & Hfr & Hl0 & Hfit).
+    destruct (qp_step cb g Hcb (w := qp_w esd es') (px_ps e) (px_st e) (px_rp e) (px_ls e) (px_body e) (px_t0 e) (qp_wires es') Wl Okl Hnp Hfr (proj2 (qp_all_in0 esd e es' Eall)) Hl0 Hfit
                 qp_f1 (fun d0 rw0 X => X esd e es' Eall) qp_rgoal) with (c := c) (rw := rw) (x := x) (rw' := rw') as (c1 & E1 & G); try assumption.
     + apply qp_rgoal_step.
     + intros a aF f0 rw0 E B0 _. apply (qp_rgoal_exit a aF f0 rw0 esd (e :: es') E Eall). apply (JB_in _ _ _ _ e es' eq_refl B0).
